@@ -153,7 +153,11 @@ def _compare_variant(base, var, oa, ob, cnt, vclass):
         ea = oa.get("err", {}).get("message", "accepted")
         eb = ob.get("err", {}).get("message", "accepted")
         msg = ea if not ok_a else eb
-        res = "decimal-residue" if ("exceeds holding" in msg and lc.nonterminating_split(base)) else "other"
+        # a ~1e-27 decimal shortfall (F3b) that one line order produces and the other does not: qualified exactly as in
+        # C05 (what in the ledger explains a residue); excuse "none" and every other refusal stay plain violations
+        from .c05 import residue_class
+        rc = residue_class(base if not ok_a else var, msg)
+        res = rc if rc.startswith("holding-short-by-decimal-residue:") and not rc.endswith(":none") else "other"
         v.append({"clause": "accept-reject-differs", "detail": f"[{vclass}] base: {ea[:160]} | variant: {eb[:160]}",
                   "signature": f"accept-reject-differs:{res}"})
         return v
